@@ -561,3 +561,56 @@ FormatTask._run_wrappers = _run_wrappers
 
 def wrapper_tasks(root, timeout_ms=10000):
     return [FormatTask(root, "wrappers", timeout_ms)]
+
+
+# ---------------------------------------------------------------------------------------------------
+# exceptions.FormatError.__init__: the error carries exactly the message and the cause it is given
+
+def _run_format_error_init(self, res):
+    """FormatError(message, cause): self.message is the message, self.cause and self.__cause__ are the very exception object
+    given as cause (the one the checker function raised) - not something derived from it"""
+    repo = extract.Repo(self.root)
+    unit = repo.unit("exceptions:FormatError.__init__")
+    res["function"], res["source_hash"] = unit.key, unit.source_hash()
+    ctx = Ctx(repo, contracts={}, config={})
+
+    class _Super:
+        pass
+
+    def builtin_hook(I, st, name, a, k, node):
+        if name == "super":
+            return [(st, _Super())]
+        return None
+
+    def getattr_hook(I, st, obj, attr):
+        if isinstance(obj, _Super):
+            return [(st, BoundMethod(obj, attr))]
+        return None
+
+    def method_hook(I, st, obj, name, a, k, node):
+        if isinstance(obj, _Super) and name == "__init__":
+            return [(st, lift(None))]      # Exception.__init__ stores its arguments in .args (trusted)
+        return None
+    ctx.config.update(builtin_hook=builtin_hook, getattr_hook=getattr_hook, method_hook=method_hook)
+    I = Interp(ctx)
+    st = State()
+    st.unit = unit
+    me = ObjVal("FormatError", ctx.new_oid())
+    msg = Opaque("message", [])
+    cause = ExcVal("ListedExc", {}, origin="func")
+    outs = I.run_unit(unit, st, [me, msg, cause], {})
+    res["paths"] = len(outs)
+    obls = list(ctx.obligations)
+    for n, (s, ctl) in enumerate(outs):
+        nm = "format:format_error_init/F/fields#%d" % (n + 1)
+        ok = ctl[0] == "return" and s.heap.get((me.oid, "message")) is msg and s.heap.get((me.oid, "cause")) is cause and s.heap.get((me.oid, "__cause__")) is cause
+        obls.append(core.Obligation(nm, "F", s.pc, z3.BoolVal(bool(ok)), note="message, cause and __cause__ are exactly the arguments"))
+    self.finish(res, ctx, obls)
+
+
+FormatTask._run_format_error_init = _run_format_error_init
+_old_format_tasks = format_tasks
+
+
+def format_tasks(root, timeout_ms=10000):      # noqa: F811
+    return _old_format_tasks(root, timeout_ms) + [FormatTask(root, "format_error_init", timeout_ms)]
